@@ -106,6 +106,32 @@ def run_grammar(case):
             f"{tname}: well-formed wire {w.hex()} re-encodes as {w1.hex()}",
             "identity:" + tname,
         )
+    # the public constructor path: replace() rebuilds the record through __init__; mapping-valued
+    # fields are also offered in reversed insertion order (their order carries no meaning)
+    import collections.abc
+
+    try:
+        again = rd.replace()
+    except Exception as e:
+        raise Violation("constructor", f"{tname}: replace() raised {type(e).__name__}: {e}", f"replace:{tname}:{type(e).__name__}")
+    if again != rd or again.to_wire() != w1:
+        raise Violation("constructor", f"{tname}: replace() rebuilt a different record: {again.to_wire().hex()} vs {w1.hex()}", "replace-differs:" + tname)
+    for k in rd._get_all_slots():
+        v = getattr(rd, k, None)
+        if isinstance(v, collections.abc.Mapping) and len(v) > 1:
+            rev = dict(reversed(list(v.items())))
+            try:
+                perm = rd.replace(**{k: rev})
+            except Exception as e:
+                raise Violation("constructor", f"{tname}: replace({k}=<reordered mapping>) raised {type(e).__name__}: {e}", f"replace-map:{tname}")
+            pw = perm.to_wire()
+            if perm != rd or pw != w1:
+                raise Violation("constructor", f"{tname}: the same {k} mapping in another insertion order encodes as {pw.hex()} instead of {w1.hex()}", "mapping-order:" + tname)
+            try:
+                dns.rdata.from_wire(rdclass, rdtype, pw, 0, len(pw))
+            except Exception as e:
+                raise Violation("constructor", f"{tname}: wire of a record built with a reordered {k} mapping is rejected: {e!r}", "mapping-order-reject:" + tname)
+            classes.append("mapping-reordered")
     # generic form
     g = rd.to_generic()
     if g.data != w1:
